@@ -188,8 +188,9 @@ Fixpoint gen_loop (c : ctx) (t : target) (pord : list N) (gs : list gen) (evs : 
 
 Record tresult := { r_events : list event; r_files : option (list file); r_err : option xerr }.
 
-(* one target: files are handed to the file type only if no generator failed; an unregistered
-   file type aborts assembly (which files were assembled before it is unspecified: map order) *)
+(* one target: files are handed to the file type only if no generator failed and every file's type
+   is registered: an unregistered file type is found before the first file is written (fix: commit
+   recorded in KNOWN_FINDINGS.txt; before it, which files were written first depended on map order) *)
 Definition exec_target (c : ctx) (t : target) : tresult :=
   match tdir t with
   | [] => {| r_events := []; r_files := Some []; r_err := Some XNoDir |}
@@ -201,7 +202,7 @@ Definition exec_target (c : ctx) (t : target) : tresult :=
     | Some e => {| r_events := evs; r_files := Some []; r_err := Some e |}
     | None =>
       match find (fun f => negb (mem_str (ftype f) (filetypes c))) files with
-      | Some f => {| r_events := evs; r_files := None; r_err := Some (XUnknownType (fname f)) |}
+      | Some f => {| r_events := evs; r_files := Some []; r_err := Some (XUnknownType (fname f)) |}
       | None =>
         let bad := filter (fun n => mem_str n (assemble_fails c)) (map fname files) in
         {| r_events := evs; r_files := Some files;
